@@ -38,7 +38,7 @@ def is_mapping_schema(s):
 
 class Gen(object):
     def __init__(self, seed, max_depth=3, normalization=False, pool=None, p_mismatch=0.12,
-                 registries=False, of_rules=True, deps=True):
+                 registries=False, of_rules=True, deps=True, nested_bias=False):
         self.r = random.Random(seed)
         self.max_depth = max_depth
         self.norm = normalization
@@ -46,6 +46,7 @@ class Gen(object):
         self.p_mismatch = p_mismatch
         self.of_rules = of_rules
         self.deps = deps
+        self.nested_bias = nested_bias
 
     # ------------------------------------------------------------ values
     def scalar(self):
@@ -81,7 +82,7 @@ class Gen(object):
 
     def schema(self, depth=None, pool=FIELDS, nmax=4):
         depth = self.max_depth if depth is None else depth
-        names = self.field_names(self.r.randrange(1, nmax + 1), pool)
+        names = self.field_names(self.r.randrange(0 if self.r.random() < 0.15 else 1, nmax + 1), pool)
         return {n: self.rules(depth, names, pool) for n in names}
 
     def simple_rules(self, depth):
@@ -91,8 +92,11 @@ class Gen(object):
     def rules(self, depth, siblings, pool, small=False, in_of=False, kind=None):
         r = self.r
         rules = {}
-        kind = kind or r.choice(['integer', 'number', 'float', 'string', 'boolean', 'list_items', 'list_schema',
-                                 'dict_schema', 'dict_kv', 'any', 'string', 'integer', 'multi'])
+        kinds = ['integer', 'number', 'float', 'string', 'boolean', 'list_items', 'list_schema',
+                 'dict_schema', 'dict_kv', 'any', 'string', 'integer', 'multi']
+        if self.nested_bias:
+            kinds += ['list_items', 'list_schema', 'dict_schema', 'dict_kv', 'dict_schema', 'dict_kv'] * 2
+        kind = kind or r.choice(kinds)
         if depth <= 0 and kind in ('list_items', 'list_schema', 'dict_schema', 'dict_kv'):
             kind = r.choice(['integer', 'string', 'any'])
         ckind = kind
